@@ -267,6 +267,61 @@ def mk_kvfile(it):
     return db
 
 
+def sym_saver(vc):
+    """duplicate.saver / saver.copies: per source row, in order: the pair handed to the key/value store is ('%08x' % position, a DEEP
+    copy of the row) -- disjoint from the row, nested lists / objects included, because the store serialises the value only after
+    the row itself has travelled on and a later step may have edited it or anything inside it in place (T6) -- and the row itself
+    is queued to be re-yielded"""
+    import z3
+    from pyvc.api import real_function, LoopSpec, check, cover, row_stream, Opaque, term, StrS, IntS, Row, same_row
+    from pyvc.symex import Ev
+    fk = vc.under_contract(P + 'duplicate.py', ['saver'])
+    vc.under_contract(P + 'duplicate.py', ['saver', 'copies'])
+
+    def thunk(it):
+        saver = real_function(it, 'dataflows.processors.duplicate', 'saver')
+        rows = row_stream(it, 'resource')
+        db = Opaque('KVFile', 'db')
+
+        def insert_generator(it_, obj, a, k):
+            # T6: the store pulls the pairs one by one (and yields each back before serialising it): run the real generator
+            it_.emit(Ev('Call', target=obj, method='insert_generator', args=(), kwargs=dict(k), result=None, objs=tuple(a)))
+            it_.run_generator(a[0])
+            from pyvc.api import PyList
+            return PyList([])        # (the re-yielding of the queued rows by the outer loop is decided by the bounded conservation runs)
+        db.attrs['call:insert_generator'] = insert_generator
+
+        def at_start(it, env, elem):
+            idx, row = elem
+            return idx, row, row.snapshot()
+
+        def at_end(it, env, cap, events):
+            idx, row, snap = cap
+            ys = [e for e in events if e.kind == 'Yield']
+            if len(ys) != 1 or not isinstance(ys[0].value, tuple) or len(ys[0].value) != 2:
+                check(it, 'one-pair-per-row', False)
+                return
+            key, val = ys[0].value
+            stored = ys[0].obj[1] if isinstance(ys[0].obj, tuple) else None
+            HEX8 = z3.Function('py_format[08x]', lib_cell(), StrS)
+            check(it, 'key-is-the-position-in-8-hex-digits', term(key, StrS) == HEX8(lib_cell().int(term(idx, IntS))))
+            check(it, 'stored-value-is-a-deep-copy-of-the-row-not-the-row-and-not-a-shallow-copy',
+                  isinstance(stored, Row) and stored is not row and getattr(stored, 'deep_copy_of', None) is row)
+            check(it, 'stored-value-has-the-content-of-the-row', same_row(val, snap) if hasattr(val, 'dom') else False)
+            q = env.lookup('originals')
+            check(it, 'the-row-itself-is-queued-for-re-yielding', getattr(q, 'items', None) is not None and len(q.items) >= 1 and q.items[-1] is row)
+            cover(it, 'iter-reachable')
+        it.loops['copies#L0'] = LoopSpec(at_start=at_start, at_end=at_end)
+        it.run_generator(it.call(saver, [rows, db, 1000]))
+    paths = vc.explore(fk, thunk, min_paths=2)
+    expect_no_raise_or_same(vc, fk, paths)
+
+
+def lib_cell():
+    from pyvc.api import Cell
+    return Cell
+
+
 def sym_duplicate_func(vc):
     """duplicate.func stream phase and descriptor phase"""
     import z3
@@ -655,11 +710,44 @@ def nat_duplicate_aliasing(h):
 
 from contracts import C10 as _K10   # noqa: E402  (ResourceMatcher: the contract every selector-taking step is checked against)
 
+def nat_duplicate_row_shapes(h):
+    """bounded: duplicate of a resource whose rows are keyed in ANOTHER order than its schema lists the fields (after a select /
+    concatenate / a custom row step), or lack a declared field: the copy has the same rows as the original, field by field"""
+    from dataflows import Flow, duplicate, select_fields, concatenate, update_resource
+    data = [{'name': 'person-%d' % i, 'city': 'city-%d' % i, 'n': i} for i in range(5)]
+
+    def reorder(rows):
+        for r in rows:
+            yield dict(reversed(list(r.items())))
+
+    def sparse(rows):
+        for i, r in enumerate(rows):
+            if i % 2:
+                r = {k: v for k, v in r.items() if k != 'city'}
+            yield r
+    cases = {
+        'select-reorders-the-schema': [select_fields(['city', 'name'])],
+        'concatenate-with-another-field-order': [concatenate(dict(city=[], name=[]), dict(name='res_1', path='res_1.csv'))],
+        'rows-function-reverses-the-keys': [reorder],
+        'rows-without-one-declared-field': [sparse],
+    }
+    for cname, steps in cases.items():
+        for to_end in (False, True):
+            for bs in (1, 1000):
+                got = h.run(lambda: Flow([dict(r) for r in data], *steps, duplicate('res_1', batch_size=bs, duplicate_to_end=to_end)).results(on_error=None))
+                if got[0] != 'ok':
+                    h.check(False, P + 'duplicate.py::saver', (cname, to_end, bs), 'runs', got[:2])
+                    continue
+                res, dp, _ = got[1]
+                h.check(len(res) == 2 and res[0] == res[1] and len(res[0]) == len(data), P + 'duplicate.py::saver', (cname, to_end, bs), res[0][:2], res[1][:2] if len(res) > 1 else res)
+
+
 ITEMS = [
     _K10._mk_matcher_item(),
     Item('concatenate.concatenator', sym_concatenator, [], P + 'concatenate.py::concatenator'),
     Item('concatenate.func', sym_concatenate_func, [], P + 'concatenate.py::concatenate.func'),
     Item('duplicate.func', sym_duplicate_func, [], P + 'duplicate.py::duplicate.func'),
+    Item('duplicate.saver', sym_saver, [('row-shapes', nat_duplicate_row_shapes)], P + 'duplicate.py::saver'),
     Item('iterable_loader.naming', BA.sym_iterable_loader_naming, [], 'dataflows/helpers/iterable_loader.py::iterable_loader.process_datapackage'),
     Item('delete_resource.func', K10.sym_delete_resource, [], P + 'delete_resource.py::delete_resource.func'),
     Item('appenders', sym_appenders, [], 'dataflows/helpers/iterable_loader.py::iterable_loader.process_resources'),
